@@ -5,6 +5,10 @@ HERE = os.path.dirname(os.path.dirname(os.path.abspath(__file__)))
 BASE = 'cd /repo && /venv/bin/python -m pytest -ra -q -p no:cacheprovider --timeout=900 --continue-on-collection-errors --junitxml=/tmp/sf-baseline.junit.xml'
 
 CLAIMED = {
+ 'C03': dict(
+   text='TLC checks that the block-walking algorithms of TypeBlocks transcribed in SFBlocks (key -> block slices with contiguity bundling, descending-slice normalisation, slice/drop/mask loops) refine the column-level model for EVERY admissible block layout and every column key of a small scope (MC_C03: 187k states quick); every TLC state is replayed on a real Frame built with exactly that layout; TLC (Trace_C03) then decides, on recorded events, that each of ~100 public operations and the C04/C08 selection/update families give equal results on up to 6 layouts of the same logical Frame, and that all read routes coincide with the ground-truth columns.',
+   ref='DESIGN.md section 4 (C03)', note='Trusted: TLC, the projection, NumPy. Exhaustive only for the transcribed algorithms inside MC_C03 bounds (3 columns quick, 4 thorough); the interface sweep is a sample.',
+   technique='TLA+ refinement check (SFBlocks refines SFFrame) with TLC; state dump replayed into the code; cross-layout traces validated by a TLC trace spec'),
  'C04': dict(
    text='TLC checks the selection semantics (SFFrame: positional keys via Python-exact slices, label keys, stop-inclusive label slices, dimensionality rule) on every key of a small scope (MC_C04) and shows that the as-built slice translation meets the required meaning; every TLC-enumerated case is replayed on the real Frame/Series for every block layout, and seeded random frames/keys recorded from the real code are validated by TLC (Trace_C04).',
    ref='DESIGN.md section 4 (C04)', note='Trusted: TLC, the projection (sfverif.project), NumPy. Exhaustive only inside MC_C04 bounds (3x3 quick / 4x4 thorough); beyond that the evidence is the validated sample.',
